@@ -59,6 +59,16 @@ class EngineBase:
         finally:
             self._feas.pop()
 
+    def feasible_full(self, st: State, timeout_ms=3000) -> bool:
+        """like feasible(), with the axioms and the quantified part of the path condition (unknown keeps the path)"""
+        s = z3.Solver()
+        s.set("timeout", timeout_ms)
+        for a in self.axioms:
+            s.add(a)
+        for f in st.pc:
+            s.add(f)
+        return s.check() != z3.unsat
+
     def _has_quant(self, f) -> bool:
         cache = self.__dict__.setdefault("_qcache", {})
         i = f.get_id()
@@ -224,7 +234,9 @@ class EngineBase:
             if exc is not None:
                 out.append(Res(s, None, exc))
             else:
-                out.append(Res(s, self.typed(s, Val.str(fresh("fstr", I)), TSTR)))
+                f = fstr_fn(fstr_template(e), len(vals))
+                sid_ = f(*[v.t for v in vals]) if f is not None else fresh("fstr", I)
+                out.append(Res(s, self.typed(s, Val.str(sid_), TSTR)))
         return out
 
     def ev_Name(self, e, st):
@@ -423,6 +435,14 @@ class EngineBase:
         return self.bind(self.eval(e.value, st), f)
 
     def assign_name(self, s: State, name: str, v: SV):
+        if name in getattr(self, "my_nonlocals", ()) and "outer_env" in s.ghost:
+            # `nonlocal name`: the binding lives in the enclosing activation's cell (reads go through ev_Name's free-variable path)
+            a = s.ghost["outer_env"]
+            for _ in range(getattr(self, "free_depth", {}).get(name, 1) - 1):
+                a = Val.a(s.fld("cell:__parent__", a))
+            s.set_fld("cell:" + name, a, v.t)
+            s.env.pop(name, None)
+            return
         s.env[name] = v
         if name in self.cellvars:
             s.set_fld("cell:" + name, s.envref, v.t)
@@ -494,7 +514,8 @@ class EngineBase:
             return f(coll.t, x.t)
         if k == "any":
             f = z3.Function("any_contains", Val, Val, B)
-            return z3.If(is_dict_u(coll.t), s.d_has(Val.a(coll.t), x.t), f(coll.t, x.t))
+            fs = z3.Function("str_contains", Val, Val, B)
+            return z3.If(is_dict_u(coll.t), s.d_has(Val.a(coll.t), x.t), z3.If(Val.is_str(coll.t), fs(coll.t, x.t), f(coll.t, x.t)))
         raise Untranslatable(f"'in' on {coll.ty}")
 
     def ev_Attribute(self, e, st):
